@@ -593,7 +593,24 @@ def new_line(slot, kind):
         return "new %d cb %s %s %s" % (slot, kind[1], ",".join(map(str, kind[2])) or "-", kind[3])
     if kind[0] == "empty":
         return "new %d empty %d" % (slot, kind[1])
+    if kind[0] == "iov":
+        return "new %d iov %s" % (slot, iov_spec(kind[1]))
+    if kind[0] == "bufnull":
+        return "new %d bufnull %d" % (slot, kind[1])
+    if kind[0] == "fd":
+        return "new %d fd %d %d %d" % (slot, kind[1], kind[2], kind[3])
+    if kind[0] == "pipe":
+        return "new %d pipe %d" % (slot, kind[1])
     return "new %d upg" % slot
+
+
+def iov_spec(elems):
+    """elems: None (NULL array, count 0) | ('N', cnt) | list of 'z' | 'd' | ('n', len) | (off, len)"""
+    if isinstance(elems, tuple) and elems[0] == "N":
+        return "N%d" % elems[1]
+    if not elems:
+        return "-"
+    return ",".join(e if isinstance(e, str) else ("n%d" % e[1] if e[0] == "n" else "%d:%d" % e) for e in elems)
 
 
 def resp_state(kind):
@@ -614,6 +631,31 @@ def resp_state(kind):
         return rs
     if kind[0] == "empty":
         return RespState("empty", total=0, flags=kind[1])
+    if kind[0] == "iov":
+        # documented: zero-length elements are skipped (whatever their base); a non-empty element needs a buffer;
+        # the body is the concatenation of the elements in order.  None = the constructor must refuse.
+        el = kind[1]
+        if isinstance(el, tuple) and el[0] == "N":
+            return None if el[1] > 0 else RespState("iov", total=0, body=b"")
+        body = b""
+        for e in el:
+            if isinstance(e, str):
+                continue
+            if e[0] == "n":
+                if e[1] > 0:
+                    return None
+                continue
+            body += pat_range(e[0], e[1])
+        return RespState("iov", total=len(body), body=body)
+    if kind[0] == "bufnull":
+        return None if kind[1] > 0 else RespState("buf", total=0, body=b"")
+    if kind[0] == "fd":
+        size, off, fsize = kind[1:]
+        if size >= 1 << 63 or off >= 1 << 63 or size + off >= 1 << 63:
+            return None
+        return RespState("fd", total=size, body=pat_range(off, size))
+    if kind[0] == "pipe":
+        return RespState("pipe", total=SIZE_UNKNOWN, body=pat_range(0, kind[1]))
     return RespState("upg", total=0)
 
 
@@ -760,6 +802,22 @@ XKINDS = [("buf", 0), ("buf", 5), ("buf", 300), ("cb", 7, [3, 4], "eos"), ("cb",
 XCODES = [200, 200, 200, 404, 204, 304, 100, 199, 201, 500, 999, 205]
 
 
+def gen_degenerate_kinds(tier):
+    """every constructor with degenerate-but-legal (and a few illegal) inputs"""
+    A, B, C = (0, 5), (3, 4), (20, 1)            # A and B share memory
+    alpha = ["z", "d", A, B, C]
+    kinds = [("iov", []), ("iov", ("N", 0)), ("iov", ("N", 2)), ("iov", [("n", 3)]), ("iov", [A, ("n", 1)]), ("iov", [("n", 0), A]),
+             ("iov", ["z"] * 10 + [C] + ["d"] * 10), ("iov", [(0, 300), "z", (100, 300)]), ("iov", [(i, 1) for i in range(40)])]
+    for L in range(1, 5 if tier == "thorough" else 4):
+        for combo in itertools.product(alpha, repeat=L):
+            kinds.append(("iov", list(combo)))
+    kinds += [("bufnull", 0), ("bufnull", 5), ("buf", 0), ("cb", 0, [], "eos"), ("cb", 0, [3], "eos"), ("cb", 0, [], "err"),
+              ("pipe", 0), ("pipe", 1), ("pipe", 300),
+              ("fd", 0, 0, 0), ("fd", 0, 0, 10), ("fd", 0, 7, 10), ("fd", 5, 0, 5), ("fd", 5, 5, 10), ("fd", 3, 7, 10), ("fd", 10, 0, 10),
+              ("fd", 300, 4000, 5000), ("fd", 1 << 63, 0, 0), ("fd", 0, 1 << 63, 0), ("fd", (1 << 62), (1 << 62), 0), ("fd", (1 << 64) - 1, 0, 0)]
+    return kinds
+
+
 def make_x(mthd, ver, conn, expect, up, early, resp_specs):
     """resp_specs: [(kind, flags|None, calls, code)]"""
     lines, specs = [], []
@@ -793,6 +851,13 @@ def gen_exchanges(tier, rng):
             cases.append(make_x(mthd, ver, conn, None, 0, 0, [(kind, flags, [], 200)]))
     for calls, kind, ver, mthd in itertools.product(XCALLS, XKINDS[:6], (10, 11), ("GET", "HEAD")):
         cases.append(make_x(mthd, ver, None, None, 0, 0, [(kind, None, calls, 200)]))
+    # every constructor with degenerate inputs: the body on the wire must be what the application supplied
+    for kind in gen_degenerate_kinds(tier):
+        cases.append(make_x("GET", 11, None, None, 0, 0, [(kind, None, [], 200)]))
+        if kind[0] != "iov" or len(kind[1]) <= 2:
+            cases.append(make_x("HEAD", 11, None, None, 0, 0, [(kind, None, [], 200)]))
+            cases.append(make_x("GET", 10, None, None, 0, 0, [(kind, None, [], 200)]))
+            cases.append(make_x("GET", 11, None, None, 0, 0, [(kind, None, [("add", b"Transfer-Encoding", b"chunked")], 200)]))
     # 102 Processing followed by the final reply
     for k1, k2, mthd in itertools.product([("buf", 0), ("empty", 0), ("buf", 4), ("buf", 5), ("buf", 9)],
                                           [("buf", 5), ("cb", "u", [2, 3], "eos"), ("buf", 0)], ("GET", "HEAD")):
@@ -832,6 +897,12 @@ def judge_x(c, out):
     first = None
     for kind, flags, calls, code in x["resp"]:
         rs = resp_state(kind)
+        if rs is None:
+            if out[k] != "null":
+                return "constructor accepted an input it must refuse: " + out[k]
+            return None
+        if out[k] == "null":
+            return "constructor refused a legal input (%s)" % (kind[0],)
         if out[k] != "ok":
             return "new failed: " + out[k]
         k += 1
@@ -851,6 +922,96 @@ def judge_x(c, out):
     return e or first
 
 
+
+# ------------------------------------------------------------------ error replies generated by the daemon itself
+
+ERR_MSGS = [b"", b"<html>bad</html>", b"x" * 300]
+ERR_CODES = (400, 413, 414, 431, 501, 505, 500, 301, 200, 204, 304, 100, 101, 99, 1000, 999, ICY | 400)
+ERR_HDRS = [None, (b"Location", b"/a%20b"), (b"Location", b"/" + b"y" * 200), (b"X-E", b"v  w")]
+
+
+def gen_errors(tier, rng):
+    """transmit_error_response_len white box: (stop_with_error, too late, shutdown) x keepalive x read_closed x version x
+    request Connection tokens x method x date options x status x message x extra header x buffer situation"""
+    cases = []
+    wbs = [(4096, 4096), (16, 4096), (2048, 4096), (16, 16)]
+    grid = itertools.product((0, 1), (0, 1), (0, 1), (-1, 0, 1), (0, 1), (1, 2, 3, 4, 100), (0, 2), (1, 2, 3, 6),
+                             ((0, 0), (1, 0), (0, 1)), ERR_CODES, range(len(ERR_MSGS)), range(len(ERR_HDRS)), range(len(wbs)))
+    allp = list(grid)
+    if tier == "quick":
+        # the three early exits only on a sub-grid, the rest sampled
+        main = [g for g in allp if (g[0], g[1], g[2]) == (0, 0, 0)]
+        early = [g for g in allp if (g[0], g[1], g[2]) != (0, 0, 0)]
+        allp = rng.sample(main, 6000) + rng.sample(early, 300)
+    else:
+        main = [g for g in allp if (g[0], g[1], g[2]) == (0, 0, 0)]
+        early = [g for g in allp if (g[0], g[1], g[2]) != (0, 0, 0)]
+        allp = rng.sample(main, 40000) + rng.sample(early, 2000)
+    for swe, late, shut, ka, rc, ver, ct, m, (sup, nodate), code, mi, hi, wi in allp:
+        msg, hdr, (wb1, wb2) = ERR_MSGS[mi], ERR_HDRS[hi], wbs[wi]
+        line = "terr %d %d %d %d %d %d %d %d %d %d %d %s %s %s %d %d" % (
+            swe, late, shut, ka, rc, ver, ct, m, sup, nodate, code, hx(msg),
+            "none" if hdr is None else hx(hdr[0]), "-" if hdr is None else hx(hdr[1]), wb1, wb2)
+        cases.append(Case("terr", [line], (swe, late, shut, ka, rc, ver, ct, m, sup, nodate, code, msg, hdr, wb1, wb2)))
+    return cases
+
+
+def judge_terr(c, out):
+    """independent statement: an error reply, if any, is a well-formed head that announces close, frames the static
+    message by Content-Length and leaves the connection in MUST_CLOSE with discard_request; silence only where the
+    daemon cannot reply at all"""
+    swe, late, shut, ka, rc, ver, ct, m, sup, nodate, code, msg, hdr, wb1, wb2 = c.meta
+    icy = bool(code & ICY)
+    cc = code & ~ICY
+    if out == "closed":
+        cannot = (swe or late or shut or wb2 < 100 or cc < 100 or cc > 999 or cc == 101 or (cc < 200 and ver == 2)
+                  or (m == 6 and cc // 100 == 2))
+        return None if cannot else "error reply %d suppressed although nothing prevents it" % cc
+    mm = re.match(r"^sent ka=(-?\d+) p=(\S) dr=([01]) swe=([01]) pos=(\d+) total=(\d+) hdr=(\S+)$", out)
+    if not mm:
+        return "unexpected output " + out[:80]
+    if swe or late or shut:
+        return "error reply sent although the connection is beyond replying"
+    if int(mm.group(1)) != -1 or mm.group(3) != "1" or mm.group(4) != "1":
+        return "after an error reply: keepalive=%s discard_request=%s stop_with_error=%s" % (mm.group(1), mm.group(3), mm.group(4))
+    if int(mm.group(6)) != len(msg):
+        return "response size %s for a message of %d bytes" % (mm.group(6), len(msg))
+    head = m == 2
+    nobody = cc < 200 or cc == 204 or cc == 304 or head
+    if int(mm.group(5)) != (len(msg) if nobody else 0):
+        return "rsp_write_position %s" % mm.group(5)
+    buf = unhx(mm.group(7))
+    try:
+        r = parse_reply(buf, 0, True, {2: 10, 3: 11, 4: 12}.get(ver, 11), True)
+    except Malformed as ex:
+        return "error reply head malformed: %s" % ex
+    if r["end"] != len(buf):
+        return "bytes after the header block"
+    if r["code"] != cc:
+        return "status %d sent for error %d" % (r["code"], cc)
+    if r["version"] != (b"ICY" if icy else b"HTTP/1.1"):
+        return "version %r" % r["version"]
+    if not r["close"]:
+        return "error reply without 'Connection: close'"
+    low = [(n.lower(), v) for n, v in r["fields"]]
+    cl = [v for n, v in low if n == b"content-length"]
+    te = [v for n, v in low if n == b"transfer-encoding"]
+    if te:
+        return "chunked error reply"
+    if cc >= 200 and cc != 204:
+        if cl != [str(len(msg)).encode()]:
+            return "Content-Length %r for a message of %d bytes" % (cl, len(msg))
+    elif cl:
+        return "Content-Length in a %d reply" % cc
+    want = [] if hdr is None else [(hdr[0], hdr[1].strip(b" \t"))]
+    got = [(n, v) for n, v in r["fields"] if n.lower() not in MANAGED]
+    if got != want:
+        return "extra header %r, expected %r" % (got, want)
+    dt = [v for n, v in low if n == b"date"]
+    if bool(dt) != (not sup and not nodate):
+        return "Date header presence %r (suppress=%d, clock failure=%d)" % (dt, sup, nodate)
+    return None
+
 # ------------------------------------------------------------------ runner / Spec
 
 def _sig(s):
@@ -864,7 +1025,9 @@ class Spec:
     lean_targets = ["Mhd.Props.C04", "drv_reply"]
     required_theorems = ["Mhd.C04.call_preserves_inv", "Mhd.C04.calls_preserve_inv", "Mhd.C04.reply_wellFramed",
                          "Mhd.C04.one_body_delimitation", "Mhd.C04.no_body_when_forbidden",
-                         "Mhd.C04.user_headers_verbatim", "Mhd.C04.close_announced", "Mhd.C04.continue_only_when_asked"]
+                         "Mhd.C04.user_headers_verbatim", "Mhd.C04.close_announced", "Mhd.C04.close_announced_iff",
+                         "Mhd.C04.continue_only_when_asked", "Mhd.C04.error_reply_framed_and_closes",
+                         "Mhd.C04.iovec_body_is_concatenation"]
     trusted_base = ["Lean 4 kernel", "axioms: propext, Classical.choice, Quot.sound at most (audited per theorem)",
                     "hand-written model lean/Mhd/Model/{ReplyStr,Resp,Reply,ReplyWire}.lean tied to response.c / connection.c by this run's correspondence",
                     "the response grammar lean/Mhd/Proofs/ReplyGrammar.lean (WellFramed, parseReply) and its independent Python twin parse_reply in tools/props/C04.py",
@@ -958,6 +1121,8 @@ class Spec:
                     e = judge_seq(c, ho)
                 elif c.kind == "x":
                     e = judge_x(c, ho)
+                elif c.kind == "terr":
+                    e = judge_terr(c, ho[0])
             except Exception as ex:   # the oracle could not follow: treat as its verdict
                 e = "oracle cannot follow: %r" % (ex,)
             if e:
@@ -993,6 +1158,7 @@ class Spec:
                  ("queue", gen_queue(ctx.tier, ctx.rng)),
                  ("hdr_sizes", gen_hdr_sizes(ctx.tier, ctx.rng)),
                  ("strfuncs", gen_strfuncs(ctx.tier, ctx.rng)),
+                 ("error_replies", gen_errors(ctx.tier, ctx.rng)),
                  ("sequences", gen_sequences(ctx.tier, ctx.rng)),
                  ("exchanges", gen_exchanges(ctx.tier, ctx.rng) * 1)]
         if boost:
@@ -1008,6 +1174,16 @@ class Spec:
             for i in range(0, len(cases), B):
                 pairs = self.run_cases(cases[i:i + B], failures, "reply")
                 self.judge(pairs, failures, stats, "reply")
+                if name == "error_replies":
+                    for c, ho, mo in pairs:
+                        if ho is not None:
+                            k = "sent" if ho[0].startswith("sent") else ho[0][:12]
+                            xstats.setdefault("error_replies", {})
+                            xstats["error_replies"][k] = xstats["error_replies"].get(k, 0) + 1
+                            if k == "sent" and c.meta[12] is not None:
+                                xstats["error_replies"]["sent_with_location_entry"] = xstats["error_replies"].get("sent_with_location_entry", 0) + 1
+                            if k == "sent" and c.meta[13] < 100:
+                                xstats["error_replies"]["sent_after_pool_reset_retry"] = xstats["error_replies"].get("sent_after_pool_reset_retry", 0) + 1
                 if name.startswith("exchanges"):
                     for c, ho, mo in pairs:
                         if ho is None:
@@ -1063,6 +1239,7 @@ class Spec:
                "case_counts": sizes,
                "exchange_distribution": {"framing": xstats["framing"], "status_codes_seen": len(xstats["codes"]),
                                          "closed": xstats["closed"], "kept_alive": xstats["open"], "queue_refused": xstats["refused"]},
+               "error_reply_outcomes": xstats.get("error_replies", {}),
                "outcomes": {k: v for k, v in stats.items()},
                "samples": [dict(parts)["exchanges"][7].lines if len(dict(parts)["exchanges"]) > 7 else [],
                            seqs[len(seqs) // 2].lines if seqs else []]}
@@ -1078,6 +1255,20 @@ def case_from_lines(lines):
             return ("cb", "u" if w[3] == "u" else int(w[3]), [] if w[4] == "-" else [int(x) for x in w[4].split(",")], w[5])
         if w[2] == "empty":
             return ("empty", int(w[3]))
+        if w[2] == "iov":
+            sp = w[3]
+            if sp.startswith("N"):
+                return ("iov", ("N", int(sp[1:])))
+            if sp == "-":
+                return ("iov", [])
+            return ("iov", [e if e in ("z", "d") else (("n", int(e[1:])) if e.startswith("n") else tuple(int(x) for x in e.split(":")))
+                            for e in sp.split(",")])
+        if w[2] == "bufnull":
+            return ("bufnull", int(w[3]))
+        if w[2] == "fd":
+            return ("fd", int(w[3]), int(w[4]), int(w[5]))
+        if w[2] == "pipe":
+            return ("pipe", int(w[3]))
         return ("upg",)
 
     def call_of(w):
@@ -1094,6 +1285,10 @@ def case_from_lines(lines):
         if w[0] == "sp":
             return Case("sp", lines, tuple(int(x) for x in w[1:8]) + (w[8], int(w[9])))
         return Case("n100", lines, (int(w[1]), int(w[2]), None if w[3] == "none" else unhx(w[3])))
+    if len(ws) == 1 and ws[0][0] == "terr" and len(ws[0]) == 17:
+        w = ws[0]
+        return Case("terr", lines, tuple(int(x) for x in w[1:12]) + (unhx(w[12]), None if w[13] == "none" else (unhx(w[13]), unhx(w[14])),
+                                                                    int(w[15]), int(w[16])))
     if ws and ws[-1][0] == "x" and all(w[0] in ("new", "add", "del", "foot", "opt", "x") for w in ws) and \
             sum(1 for w in ws if w[0] == "x") == 1:
         slots = {}
